@@ -6,6 +6,7 @@
        VerCmp(v, w)      \in {-1, 0, 1}      v < w, v = w (same class), v > w
        OpHolds(op, v, w)  BOOLEAN             "package version v satisfies  op w"
        VerText(v)         Seq(Nat)            code points of the PMS spelling of v
+       VerCanon(v)        version record      the same for exactly the versions that compare equal
        IsVer(v)           BOOLEAN             v is a well formed version record
 
    A version  1.02b_alpha3_p-r4  is the record
@@ -36,26 +37,27 @@ IsVer(v) ==
     /\ VIsDigits(v.rev)
 
 (* ------------------------------------------------------------------------- *)
-(* comparison of digit sequences                                              *)
+(* comparison of digit sequences (the loops of PMS are recursive operators)   *)
 VSign(x) == IF x < 0 THEN -1 ELSE IF x > 0 THEN 1 ELSE 0
 
-VLeast(S) == CHOOSE i \in S : \A j \in S : i <= j
+\* "ASCII stringwise comparison" of two digit strings: the first differing
+\* position decides, a proper prefix is smaller.
+RECURSIVE VLexFrom(_, _, _)
+VLexFrom(a, b, i) ==
+    IF i > Len(a) \/ i > Len(b) THEN VSign(Len(a) - Len(b))
+    ELSE IF a[i] # b[i] THEN VSign(a[i] - b[i])
+    ELSE VLexFrom(a, b, i + 1)
+VLexCmp(a, b) == VLexFrom(a, b, 1)
 
-\* "ASCII stringwise comparison" of two digit strings: first differing position
-\* decides, a proper prefix is smaller.
-VLexCmp(a, b) ==
-    LET n == IF Len(a) < Len(b) THEN Len(a) ELSE Len(b)
-        D == {i \in 1..n : a[i] # b[i]}
-    IN  IF D = {} THEN VSign(Len(a) - Len(b))
-        ELSE VSign(a[VLeast(D)] - b[VLeast(D)])
+\* index of the first non-zero digit at or after i (Len+1 when there is none)
+RECURSIVE VFirstNZ(_, _)
+VFirstNZ(d, i) == IF i > Len(d) THEN i ELSE IF d[i] # 0 THEN i ELSE VFirstNZ(d, i + 1)
+VStripLead(d) == SubSeq(d, VFirstNZ(d, 1), Len(d))
 
-VStripLead(d) ==
-    LET NZ == {i \in 1..Len(d) : d[i] # 0}
-    IN  IF NZ = {} THEN <<>> ELSE SubSeq(d, VLeast(NZ), Len(d))
-
-VStripTrail(d) ==
-    LET NZ == {i \in 1..Len(d) : d[i] # 0}
-    IN  IF NZ = {} THEN <<>> ELSE SubSeq(d, 1, CHOOSE i \in NZ : \A j \in NZ : j <= i)
+\* index of the last non-zero digit at or before i (0 when there is none)
+RECURSIVE VLastNZ(_, _)
+VLastNZ(d, i) == IF i = 0 THEN 0 ELSE IF d[i] # 0 THEN i ELSE VLastNZ(d, i - 1)
+VStripTrail(d) == SubSeq(d, 1, VLastNZ(d, Len(d)))
 
 \* comparison "as integers": without leading zeros the longer number is the
 \* larger one, equally long numbers compare digit by digit.  <<>> reads as 0.
@@ -64,25 +66,24 @@ VNatCmp(a, b) ==
         y == VStripLead(b)
     IN  IF Len(x) # Len(y) THEN VSign(Len(x) - Len(y)) ELSE VLexCmp(x, y)
 
-\* the first non-zero entry of a function [1..n -> {-1,0,1}], 0 when there is none
-VFirstNZ(f, n) ==
-    LET D == {i \in 1..n : f[i] # 0}
-    IN  IF D = {} THEN 0 ELSE f[VLeast(D)]
-
 (* ------------------------------------------------------------------------- *)
-(* PMS Algorithm 3.3: a numeric component other than the first                *)
+(* PMS Algorithm 3.3: a numeric component other than the first: if either     *)
+(* has a leading zero, strip trailing zeros and compare as strings, otherwise  *)
+(* compare as integers                                                          *)
 VLeadZero(d) == Len(d) >= 1 /\ d[1] = 0
 VCompCmp(a, b) ==
     IF VLeadZero(a) \/ VLeadZero(b)
     THEN VLexCmp(VStripTrail(a), VStripTrail(b))
     ELSE VNatCmp(a, b)
 
-(* PMS Algorithm 3.2: the numeric components                                 *)
-VNumsCmp(A, B) ==
-    LET n == IF Len(A) < Len(B) THEN Len(A) ELSE Len(B)
-        f == [i \in 1..n |-> IF i = 1 THEN VNatCmp(A[1], B[1]) ELSE VCompCmp(A[i], B[i])]
-        c == VFirstNZ(f, n)
-    IN  IF c # 0 THEN c ELSE VSign(Len(A) - Len(B))
+(* PMS Algorithm 3.2: the numeric components; the first one compares as an    *)
+(* integer, the first difference decides, then the longer list is the larger  *)
+RECURSIVE VNumsFrom(_, _, _)
+VNumsFrom(A, B, i) ==
+    IF i > Len(A) \/ i > Len(B) THEN VSign(Len(A) - Len(B))
+    ELSE LET c == IF i = 1 THEN VNatCmp(A[1], B[1]) ELSE VCompCmp(A[i], B[i])
+         IN  IF c # 0 THEN c ELSE VNumsFrom(A, B, i + 1)
+VNumsCmp(A, B) == VNumsFrom(A, B, 1)
 
 (* PMS Algorithm 3.4: the letter (none sorts before every letter)             *)
 VLetterCmp(x, y) == VSign(x - y)
@@ -94,15 +95,16 @@ VNoSufRank == 5            \* where "no suffix" sits: _rc < (none) < _p
 VSufCmp(s, t) ==
     IF s.k = t.k THEN VNatCmp(s.n, t.n) ELSE VSign(VSufRank(s.k) - VSufRank(t.k))
 
-(* PMS Algorithm 3.5: the suffix lists                                        *)
-VSufsCmp(S, T) ==
-    LET n == IF Len(S) < Len(T) THEN Len(S) ELSE Len(T)
-        f == [i \in 1..n |-> VSufCmp(S[i], T[i])]
-        c == VFirstNZ(f, n)
-    IN  IF c # 0 THEN c
-        ELSE IF Len(S) > Len(T) THEN VSign(VSufRank(S[n + 1].k) - VNoSufRank)
-        ELSE IF Len(S) < Len(T) THEN VSign(VNoSufRank - VSufRank(T[n + 1].k))
-        ELSE 0
+(* PMS Algorithm 3.5: the suffix lists; when one list is exhausted the next   *)
+(* suffix of the other decides: _p makes it larger, anything else smaller     *)
+RECURSIVE VSufsFrom(_, _, _)
+VSufsFrom(S, T, i) ==
+    IF i > Len(S) /\ i > Len(T) THEN 0
+    ELSE IF i > Len(S) THEN VSign(VNoSufRank - VSufRank(T[i].k))
+    ELSE IF i > Len(T) THEN VSign(VSufRank(S[i].k) - VNoSufRank)
+    ELSE LET c == VSufCmp(S[i], T[i])
+         IN  IF c # 0 THEN c ELSE VSufsFrom(S, T, i + 1)
+VSufsCmp(S, T) == VSufsFrom(S, T, 1)
 
 (* PMS Algorithm 3.7: the revision                                            *)
 VRevCmp(r, s) == VNatCmp(r, s)
@@ -128,6 +130,17 @@ OpHolds(op, v, w) ==
       [] op = "~"  -> VerCmp(VNoRev(v), VNoRev(w)) = 0
       [] op = ">=" -> VerCmp(v, w) \in {0, 1}
       [] op = ">"  -> VerCmp(v, w) = 1
+
+(* A canonical representative of the class of v under "VerCmp = 0": two versions
+   compare equal iff their canonical forms are identical (law CanonLaw in
+   Version_Laws).  It is what a hash of a version may depend on.               *)
+VerCanon(v) ==
+    [nums   |-> [x \in 1..Len(v.nums) |->
+                    IF x = 1 THEN VStripLead(v.nums[1])
+                    ELSE IF VLeadZero(v.nums[x]) THEN VStripTrail(v.nums[x]) ELSE v.nums[x]],
+     letter |-> v.letter,
+     sufs   |-> [x \in 1..Len(v.sufs) |-> [k |-> v.sufs[x].k, n |-> VStripLead(v.sufs[x].n)]],
+     rev    |-> VStripLead(v.rev)]
 
 (* ------------------------------------------------------------------------- *)
 (* the PMS spelling, as code points (TLC cannot look inside strings)          *)
